@@ -73,6 +73,7 @@ func c13Run(kinds []int, dupShare int) (string, string, string) {
 		return "harness", err.Error(), ""
 	}
 	defer s.close()
+	s.forkAll = c13Siblings
 	var pendingShare *types.WorkObjectHeader
 	var includedShare *types.WorkObjectHeader
 	includedAt := uint64(0)
@@ -377,6 +378,7 @@ func runC13(c *vx.Ctx) {
 	p.Bound("assigned_blocks", k)
 	p.Bound("pattern", c13Pattern)
 	p.Bound("kinds", c13Kinds)
+	p.Bound("variants", "plain history; (no duplicate-share offer) every block as two siblings: b1 followed, then reorganised away for b2")
 	as := c13Assignments(k)
 	dups := []int{0, 1, 2, 3, 4}
 	var idx int64
@@ -399,27 +401,52 @@ func runC13(c *vx.Ctx) {
 				p.Incomplete("deadline")
 				return
 			}
-			var key, desc, cls string
-			if perr := vx.Guard(func() { key, desc, cls = c13Run(a, d) }); perr != "" {
-				key, desc = "panic:"+vx.PanicSite(perr), fmt.Sprintf("kinds %v dup=%d: node panicked: %s", c13Names(a), d, perr)
-			}
-			if key == "harness" {
-				c.HarnessError(fmt.Sprintf("%v dup=%d: %s", c13Names(a), d, desc))
-				return
-			}
-			p.Transitions += int64(len(c13Pattern))
-			p.Traces++
-			if key != "" {
-				p.Outcome("VIOLATED:" + key)
-				a, d := a, d
-				if c.Confirm(desc, func() string { k, _, _ := c13Run(a, d); return k }) {
-					c.Violate("rewards", key, desc, map[string]any{"kinds": a, "dup": d})
+			plainKey := ""
+			for _, sib := range []bool{false, true} {
+				if sib && d > 0 {
+					continue // the sibling variant runs on the histories without a duplicate-share offer
 				}
-				continue
-			}
-			p.Outcome(fmt.Sprintf("dup+%d:%s", d, cls))
-			if idx%17 == 0 {
-				p.Sample(map[string]any{"kinds": c13Names(a), "dup_offset": d, "result": cls})
+				sib := sib
+				a, d := a, d
+				run := func() (k, ds, cl string) {
+					c13Siblings = sib
+					defer func() { c13Siblings = false }()
+					if perr := vx.Guard(func() { k, ds, cl = c13Run(a, d) }); perr != "" {
+						k, ds = "panic:"+vx.PanicSite(perr), fmt.Sprintf("kinds %v dup=%d: node panicked: %s", c13Names(a), d, perr)
+					}
+					return
+				}
+				key, desc, cls := run()
+				if key == "harness" {
+					c.HarnessError(fmt.Sprintf("%v dup=%d siblings=%v: %s", c13Names(a), d, sib, desc))
+					return
+				}
+				p.Transitions += int64(len(c13Pattern))
+				p.Traces++
+				tag := ""
+				if sib {
+					tag = "siblings:"
+					if key != "" && key == plainKey {
+						p.Outcome("siblings:same-failure-as-plain-history")
+						continue
+					}
+				} else {
+					plainKey = key
+				}
+				if key != "" {
+					p.Outcome("VIOLATED:" + tag + key)
+					if sib {
+						desc = "every block first followed as b1, then reorganised away for its sibling b2: " + desc
+					}
+					if c.Confirm(desc, func() string { k, _, _ := run(); return k }) {
+						c.Violate("rewards", tag+key, desc, map[string]any{"kinds": a, "dup": d, "siblings": sib})
+					}
+					continue
+				}
+				p.Outcome(fmt.Sprintf("%sdup+%d:%s", tag, d, cls))
+				if idx%17 == 0 && !sib {
+					p.Sample(map[string]any{"kinds": c13Names(a), "dup_offset": d, "result": cls})
+				}
 			}
 		}
 	}
@@ -436,11 +463,18 @@ func replayC13(c *vx.Ctx, v vx.Violation) string {
 	core.VScaleLockBytes()
 	raw, _ := jsonMarshal(v.Replay)
 	var cs struct {
-		Kinds []int `json:"kinds"`
-		Dup   int   `json:"dup"`
+		Kinds    []int `json:"kinds"`
+		Dup      int   `json:"dup"`
+		Siblings bool  `json:"siblings"`
 	}
 	if err := jsonUnmarshal(raw, &cs); err != nil {
 		return "bad replay: " + err.Error()
+	}
+	c13Siblings = cs.Siblings
+	defer func() { c13Siblings = false }()
+	if v.Part == "contracts" {
+		_, d, _ := c13CRun(cs.Kinds)
+		return d
 	}
 	_, d, _ := c13Run(cs.Kinds, cs.Dup)
 	return d
